@@ -177,6 +177,7 @@ Definition step_parent : step := (AxParent, TNode, []).
 Definition step_dos : step := (AxDescendantOrSelf, TNode, []).
 
 Section Parse.
+Variable fl : flags.                             (* which of the three repairs the source has *)
 Variable ns : str -> option str.                 (* m_namespaces: prefix -> URI (filled by mapNSTokens) *)
 Variable pe : nat -> list tok -> res (expr * list tok).     (* Expr() at nesting depth d, with less fuel *)
 Variable lf : nat.                               (* fuel of the loops *)
@@ -249,7 +250,9 @@ Definition p_nodetest (ts : list tok) : res (ntest * list tok) :=
          Ok (q, ts1)
        else Ok (NsEmpty, ts));
     if N.eqb (tokc ts1) ch_asterisk then Ok (TName q None, tl ts1)
-    else if is_nodetest_tok (cur_tok ts1) then Ok (TName q (Some (cur_tok ts1)), tl ts1)
+    else if is_nodetest_tok (cur_tok ts1) then
+      (if (fx_name fl && negb (valid_ncname (cur_tok ts1)))%bool then Err        (* NotValidNCName (repaired variant) *)
+       else Ok (TName q (Some (cur_tok ts1)), tl ts1))
     else Err.                                                           (* ExpectedNodeTest *)
 
 (* Basis(): None = the "//" pseudo step (no token consumed, no node test parsed, no predicates) *)
@@ -347,7 +350,7 @@ Definition primary_kind (ts : list tok) : pkind :=
   if (N.eqb c ch_apos || N.eqb c ch_quote)%bool then PkLiteral
   else if N.eqb c ch_dollar then PkVar
   else if N.eqb c ch_lparen then PkGroup
-  else if ((N.eqb c ch_fullstop && match cur_tok ts with _ :: c1 :: _ => is_digit c1 | _ => false end) || is_digit c)%bool
+  else if ((N.eqb c ch_fullstop && match cur_tok ts with _ :: c1 :: _ => num_digit fl c1 | _ => false end) || num_digit fl c)%bool
        then PkNumber
   else if (look_c ts ch_lparen 1 || (look_c ts ch_colon 1 && look_c ts ch_lparen 3))%bool then PkCall
   else PkPath.
@@ -457,25 +460,28 @@ Fixpoint p_level (lvl : nat) (d : nat) (ts : list tok) : res (expr * list tok) :
 End Parse.
 
 (* Expr(): ++m_nestingDepth > eMaximumNestingDepth is an error; OrExpr() *)
-Fixpoint p_expr (ns : str -> option str) (n : nat) (d : nat) (ts : list tok) : res (expr * list tok) :=
+Fixpoint p_expr (fl : flags) (ns : str -> option str) (n : nat) (d : nat) (ts : list tok) : res (expr * list tok) :=
   match n with
   | 0 => Fuel
   | S n' => if Nat.ltb gen_xpc_max_nesting (S d) then Err
-            else p_level ns (p_expr ns n') (S n') 6 (S d) ts
+            else p_level fl ns (p_expr fl ns n') (S n') 6 (S d) ts
   end.
 
 (* initXPath after tokenize(): nextToken(); Expr(); anything left is ExtraIllegalTokens *)
-Definition parse (ns : str -> option str) (ts : list tok) : res expr :=
-  match p_expr ns (S (length ts)) 0 ts with
+Definition parse (fl : flags) (ns : str -> option str) (ts : list tok) : res expr :=
+  match p_expr fl ns (S (length ts)) 0 ts with
   | Ok (e, []) => Ok e
   | Ok (_, _ :: _) => Err
   | Err => Err
   | Fuel => Fuel
   end.
 
-Definition compile (ns : str -> option str) (s : str) : res expr :=
-  match tokenize ns s with
-  | Ok ts => parse ns ts
+Definition compile (fl : flags) (ns : str -> option str) (s : str) : res expr :=
+  match tokenize fl ns s with
+  | Ok ts => parse fl ns ts
   | Err => Err
   | Fuel => Fuel
   end.
+
+(* the compiler of THIS source tree: the variant the translator recognised *)
+Definition compile_here (ns : str -> option str) (s : str) : res expr := compile flags_here ns s.
